@@ -86,6 +86,16 @@ type RecApp struct {
 
 	// CheckTxFn overrides the CheckTx verdict when set.
 	CheckTxFn func(tx []byte, committed map[string]bool) abci.ResponseCheckTx
+
+	// AppHashFn, when set, replaces the app hash derived from the hash chain (used by
+	// harnesses that need a Merkle-provable application state, e.g. lightrpcsim). It is
+	// called with the application lock held (it must not call back into the application),
+	// possibly several times for the same height; kv must be treated as read-only and
+	// copied if kept. chain is the hash chain over everything executed. nil = default.
+	AppHashFn func(height int64, kv map[string]string, chain []byte) []byte
+	// QueryFn, when set, answers Query (after the call was journalled); committed is the
+	// height of the last Commit. nil = default behaviour.
+	QueryFn func(req abci.RequestQuery, committed int64) abci.ResponseQuery
 }
 
 func NewRecApp(hashLen int) *RecApp {
@@ -134,6 +144,9 @@ func (a *RecApp) Validators() map[string]int64 {
 func (a *RecApp) appHash(s *snapshotState) []byte {
 	if !s.InitDone && s.Height == 0 && len(s.Hash) == 0 {
 		return nil
+	}
+	if a.AppHashFn != nil {
+		return a.AppHashFn(s.Height, s.KV, s.Hash)
 	}
 	out := make([]byte, 0, a.HashLen)
 	h := s.Hash
@@ -396,6 +409,9 @@ func (c *connApp) Query(req abci.RequestQuery) abci.ResponseQuery {
 	defer a.mu.Unlock()
 	v, ok := a.com.KV[string(req.Data)]
 	a.record(c.conn, Call{Name: "Query", Tx: string(req.Data)})
+	if a.QueryFn != nil {
+		return a.QueryFn(req, a.com.Height)
+	}
 	if !ok {
 		return abci.ResponseQuery{Code: 0, Key: req.Data, Height: a.com.Height, Log: "does not exist"}
 	}
